@@ -41,20 +41,29 @@ pub struct SibCase {
   /// every datagram is addressed to both readers (reader id UNKNOWN; `to` = 2): the two readers see identical
   /// traffic, so per-reader state cannot diverge and the open shared-cache finding has no trigger
   pub uniform: bool,
+  /// C07's engine-level leg: the late second reader is BEST-EFFORT and Volatile. It is judged by one rule only:
+  /// it is never handed a sample that was written before it joined (such samples reach the participant as repairs
+  /// addressed to the first reader).
+  pub second_best_effort: bool,
   pub events: Vec<SEv>,
 }
 
 pub fn case_json(c: &SibCase) -> Value {
-  json!({"keyed": c.keyed, "second_reader_joins_at_event": c.second_joins_at, "late_second_reader_is_transient_local": c.second_is_tl, "uniform_addressing": c.uniform, "events": c.events.iter().map(|e| format!("{e:?}")).collect::<Vec<_>>()})
+  json!({"keyed": c.keyed, "second_reader_joins_at_event": c.second_joins_at, "late_second_reader_is_transient_local": c.second_is_tl, "uniform_addressing": c.uniform, "second_reader_is_best_effort": c.second_best_effort, "events": c.events.iter().map(|e| format!("{e:?}")).collect::<Vec<_>>()})
 }
 
 pub fn gen_case(rng: &mut Rng) -> SibCase {
+  gen_case_kind(rng, false)
+}
+
+/// `late_best_effort`: the second reader always joins late, is Volatile and best-effort, traffic is per reader
+pub fn gen_case_kind(rng: &mut Rng, late_best_effort: bool) -> SibCase {
   let keyed = rng.chance(1, 2);
   let n = 6 + rng.below(30) as usize;
-  let second_joins_at = if rng.chance(1, 3) { 1 + rng.below(n as u64 / 2) as usize } else { 0 };
-  let uniform = rng.chance(1, 3);
+  let second_joins_at = if rng.chance(1, 3) || late_best_effort { 1 + rng.below(n as u64 / 2) as usize } else { 0 };
+  let uniform = rng.chance(1, 3) && !late_best_effort;
   let second_joins_at = if uniform { 0 } else { second_joins_at };
-  let second_is_tl = rng.chance(1, 2);
+  let second_is_tl = rng.chance(1, 2) && !late_best_effort;
   let mut events = vec![];
   let mut written = 0i64;
   #[allow(unused_assignments)]
@@ -157,10 +166,13 @@ pub fn gen_case(rng: &mut Rng) -> SibCase {
   events.push(SEv::Heartbeat);
   events.push(SEv::Take { who: 0 });
   events.push(SEv::Take { who: 1 });
-  SibCase { keyed, second_joins_at, second_is_tl, uniform, events }
+  SibCase { keyed, second_joins_at, second_is_tl, uniform, second_best_effort: late_best_effort, events }
 }
 
 pub struct SibOutcome {
+  /// best-effort second reader: samples handed over / of those, samples that were addressed to the other reader only (not judged)
+  pub be_handed: u64,
+  pub be_handed_not_sent_to_it: u64,
   pub handed: u64,
   pub sig: u64,
   pub nontrivial: bool,
@@ -200,8 +212,9 @@ pub fn run_case(case: &SibCase, acc: &mut Acc, tag: &Value) -> SibOutcome {
   let mut gapped: [BTreeSet<i64>; 2] = [BTreeSet::new(), BTreeSet::new()];
   let mut handed: [Vec<i64>; 2] = [vec![], vec![]];
   let mut written = 0i64;
+  let mut written_at_join = 0i64;
   let mut hb = 0i32;
-  let mut out = SibOutcome { handed: 0, sig: 0, nontrivial: false };
+  let mut out = SibOutcome { be_handed: 0, be_handed_not_sent_to_it: 0, handed: 0, sig: 0, nontrivial: false };
   let mut sigbuf: Vec<u8> = vec![];
   let payload = |sn: i64| -> Vec<u8> {
     if case.keyed {
@@ -218,10 +231,11 @@ pub fn run_case(case: &SibCase, acc: &mut Acc, tag: &Value) -> SibOutcome {
       break;
     }
     if !joined1 && ei >= case.second_joins_at {
-      let idx = rb.add_sibling(flavor, true, case.second_joins_at == 0 || case.second_is_tl, [0, 0, 0x52]);
+      let idx = rb.add_sibling(flavor, !case.second_best_effort, case.second_joins_at == 0 || case.second_is_tl, [0, 0, 0x52]);
       rb.sibling_match_writer(idx, wg, true, reply);
       eids.push(rb.sibling_entity_id(idx));
       joined1 = true;
+      written_at_join = written;
     }
     if std::env::var("VERIF_DEBUG").is_ok() {
       eprintln!("before event {ei} {ev:?}: cache holds {} changes", rb.topic_cache_len());
@@ -305,6 +319,24 @@ pub fn run_case(case: &SibCase, acc: &mut Acc, tag: &Value) -> SibOutcome {
             ObsVal::Dispose { .. } => continue,
           };
           out.handed += 1;
+          if *who == 1 && case.second_best_effort {
+            // the only rule for the best-effort Volatile late joiner: nothing that existed before it
+            if sn <= written_at_join {
+              acc.violate(
+                "C07/late-join:volatile-best-effort-reader-received-sample-written-before-it-existed:engine-level:sample-was-addressed-to-the-reliable-reader-next-to-it",
+                json!({"event": ei, "sn": sn, "written_when_it_joined": written_at_join, "was_that_one_sent_to_this_reader": sent_to[1].contains(&sn), "sent_to_the_other_reader": sent_to[0].contains(&sn)}),
+                replay(),
+              );
+              violated = true;
+              break;
+            }
+            if !sent_to[1].contains(&sn) {
+              out.be_handed_not_sent_to_it += 1;
+            }
+            out.be_handed += 1;
+            handed[1].push(sn);
+            continue;
+          }
           // once, in order
           if let Some(&last) = handed[*who].last() {
             if sn <= last {
@@ -336,6 +368,9 @@ pub fn run_case(case: &SibCase, acc: &mut Acc, tag: &Value) -> SibOutcome {
   // complete: after the fault-free suffix each reader holds everything that was sent to it and not gapped for it
   if !violated {
     for who in 0..eids.len() {
+      if who == 1 && case.second_best_effort {
+        continue;
+      }
       let got: BTreeSet<i64> = handed[who].iter().copied().collect();
       let missing: Vec<i64> = sent_to[who].iter().copied().filter(|sn| !got.contains(sn) && !gapped[who].contains(sn)).collect();
       if !missing.is_empty() {
